@@ -138,9 +138,14 @@ theorem covN_ctorIdx (n : Node) (c : Cov) (h : covN n = .ok c) : c.mod.ctorIdx =
     · subst h; rfl
     · obtain ⟨a, _, rfl⟩ := h; rfl
   case ret e =>
-    cases e <;> simp only [covN, bind_eq_ok, pure_eq_ok, Except.ok.injEq] at h
-    · subst h; rfl
-    · obtain ⟨a, _, rfl⟩ := h; rfl
+    cases e with
+    | none => simp only [covN, pure_eq_ok, Except.ok.injEq] at h; subst h; rfl
+    | some x =>
+      simp only [covN] at h
+      split at h
+      · simp only [pure_eq_ok, Except.ok.injEq] at h; subst h; rfl
+      simp only [bind_eq_ok, pure_eq_ok, Except.ok.injEq] at h
+      obtain ⟨a, _, rfl⟩ := h; rfl
   all_goals
     simp only [covN] at h
     try split at h
@@ -177,7 +182,10 @@ theorem covN_untouched : (n : Node) → ∀ c, covN n = .ok c → c.up = 0 → c
     rw [covN_untouched e a ha hu hi]
   | .ret (some e) => by
     intro c h hu hi
-    simp only [covN, bind_eq_ok, pure_eq_ok, Except.ok.injEq] at h
+    simp only [covN] at h
+    split at h
+    · simp only [pure_eq_ok, Except.ok.injEq] at h; subst h; rfl
+    simp only [bind_eq_ok, pure_eq_ok, Except.ok.injEq] at h
     obtain ⟨a, ha, rfl⟩ := h
     rw [covN_untouched e a ha hu hi]
   | .unop op e => by
